@@ -74,9 +74,10 @@ def configs(out, quick, rng):
     rng.shuffle(allc)
     # every output at least once in the quick tier, everything in thorough
     if quick:
+        # (never with the chain that may drop the call: a dropped call makes no use of its output, the sink state would be vacuous)
         seen, sel = set(), []
         for c in allc:
-            if c["oname"] not in seen:
+            if c["oname"] not in seen and c["chain"] != chains[2]:
                 seen.add(c["oname"])
                 sel.append(c)
         return sel
